@@ -184,6 +184,7 @@ pub fn restart(t: &mut Toks) -> String {
                     tokio::time::sleep(Duration::from_millis(150)).await;
                     write_rows(&agent, &mut live.opts.rx_bcast, next, 2).await; next += 2;
                     tokio::time::sleep(Duration::from_millis(50)).await;
+                    klukai_types::spawn::wait_for_pending_announcements().await;
                     agent.subs_manager().drop_handles().await;
                     cur = None;
                     let _ = tokio::time::timeout(Duration::from_secs(10), wait_for_all_pending_handles()).await;
@@ -197,6 +198,7 @@ pub fn restart(t: &mut Toks) -> String {
                     next += 1;
                     let _ = live.tw_tx.send(()).await;
                     let _ = tokio::time::timeout(Duration::from_secs(5), &mut live.worker).await;
+                    klukai_types::spawn::wait_for_pending_announcements().await;
                     agent.subs_manager().drop_handles().await;
                     cur = None;
                     let _ = tokio::time::timeout(Duration::from_secs(10), wait_for_all_pending_handles()).await;
@@ -214,6 +216,7 @@ pub fn restart(t: &mut Toks) -> String {
                     let _ = live.tw_tx.send(()).await;
                     let _ = tokio::time::timeout(Duration::from_secs(5), &mut live.worker).await;
                     tokio::time::sleep(Duration::from_millis(50)).await;
+                    klukai_types::spawn::wait_for_pending_announcements().await;
                     agent.subs_manager().drop_handles().await;
                     cur = None;
                     let _ = tokio::time::timeout(Duration::from_secs(10), wait_for_all_pending_handles()).await;
@@ -314,7 +317,8 @@ pub fn inflight(t: &mut Toks) -> String {
         let _ = live.tw_tx.send(()).await;
         let _ = tokio::time::timeout(Duration::from_secs(5), &mut live.worker).await;
         let _ = tokio::time::timeout(Duration::from_secs(60), changes_handle).await;
-        agent.subs_manager().drop_handles().await;
+        klukai_types::spawn::wait_for_pending_announcements().await;
+                    agent.subs_manager().drop_handles().await;
         let _ = tokio::time::timeout(Duration::from_secs(10), wait_for_all_pending_handles()).await;
         // the runtime waits for blocking sections that are still running
         let mut last = -1i64;
@@ -426,7 +430,8 @@ pub fn realstop(t: &mut Toks) -> String {
         for h in handles {
             let _ = tokio::time::timeout(Duration::from_secs(120), h).await;
         }
-        agent.subs_manager().drop_handles().await;
+        klukai_types::spawn::wait_for_pending_announcements().await;
+                    agent.subs_manager().drop_handles().await;
         let _ = tokio::time::timeout(Duration::from_secs(20), wait_for_all_pending_handles()).await;
         // the runtime waits for blocking sections that are still running
         let mut lastn = -1i64;
